@@ -44,6 +44,20 @@ CLAIMED = {
         "Tie: every accepted generated file set (plus graphs sized around hash-table growth boundaries) is compiled 8 times per backend in fresh processes (fresh SipHash keys): relative from the root (3x), absolute from /, from a relocated copy, "
         "with redundant components, through a symlink, relative from the parent; names and bytes of all outputs are compared; probe facts at two locations are compared with each other and with the model.",
    note=TB + " Determinism of emission order inside the code generators (iteration over source-ordered node lists) is observed by byte comparison, not proved."),
+ "C15": dict(engine="lean+facts+cli", technique="Lean 4 proof (prefix stability of the numbering walk; monotonicity of type expansion under symbol-table extension) + differential correspondence over random append-only histories",
+   text="Lean 4: numberMembers_append / append_to_interface: numbering an interface with members appended numbers every pre-existing member of that interface and of its ancestors exactly as before (op-codes, error values, expanded parameter lists) and only adds members after them; "
+        "plans_preserved: op-code, counts word, bundles and slot sections of old methods are unchanged; expandTy_extends: adding declarations of fresh names anywhere leaves every expanded type unchanged. "
+        "Tie: random append-only histories of 3-5 revisions; op/err/method facts of the real pipeline and the generated C stub, C skeleton and Rust stub fragments of every pre-existing method are compared across revisions, and the facts with the model.",
+   note=TB + " Interoperation of old stubs with new skeletons at run time follows from identical fragments + C01; it is not executed here."),
+ "C17": dict(engine="lean+tables+cli+compiled probes", technique="Lean 4 proof (literal semantics per language) + kernel-checked regenerated table of the real range check + compiled value/type probes",
+   text="Lean 4: the model of Primitive::new agrees with the real range check on the whole regenerated boundary table (297 rows: each type x {min-1,min,min+1,-1,0,1,max-1,max,max+1} x {decimal, hex, negative hex, leading zeros, fractional}, floats around the overflow thresholds) and equals the mathematical in-range predicate there; "
+        "every backend reading the verbatim literal evaluates it to its mathematical value when it has no leading zero (Rust: always); refuted for leading zeros (octal in C/C++/Java). "
+        "Tie: exit status of the real binary for boundary literals at file and interface scope with and without --allow-undefined-behavior; every emitted constant declaration is compiled alone with gcc, g++, rustc and javac in a probe printing its value and type. Six classes of genuine defects are known findings.",
+   note=TB + " C/C++ literal typing rules, rustc and javac are the reference semantics (observed, not modelled beyond the radix rule)."),
+ "C19": dict(engine="lean+facts+cli", technique="Lean 4 proof (effect ordering of the driver model; key-set characterisation of the multi-file generators) + directory snapshots around real runs",
+   text="Lean 4: in the driver model a rejected compilation returns the output directory unchanged and an accepted one writes exactly writtenFiles with this run's content and leaves every other entry untouched; C/C++ write exactly the named file; multiFiles_keys: the multi-file generators create exactly the base module plus the keys of the interfaces; one-file-per-interface is refuted for Rust when names collide after case folding (known finding). "
+        "Tie: the file names produced by the real Rust and Java generators are compared with the model for every case; accepted and rejected runs (10 rejection stages) for 6 backends into directories with pre-existing files; names, sizes, bytes and mtimes snapshotted before and after; banner/marking placement and truncation checked.",
+   note=TB + " The ordering 'all passes and generation before the first open' is read off main.rs into the model and observed by the snapshots; I/O failures are out of scope."),
  "C07": dict(engine="lean+tables+facts+cli", technique=T_IND,
    text="Lean 4 theorems (unbounded in hierarchy depth, members per level and interleaving) that the numbering walk hands out op-codes 0,1,2,... in ancestor-first declaration order, unique, <= 0x3FFF, and rejects chains with more than 0x4000 methods; tied to the code by kernel-checked regenerated tables (boundary 16383/16384/16385) and by sampled correspondence of the real pipeline's MIR facts with the model; the emitted numbers of C, C++, Rust and Java stubs/skeletons (incl. dispatch tables of derived interfaces) are extracted from the real compiler's output and compared with an oracle computed from the declarations; the 0x4000/0x4001 boundary is run through the real binary.",
    note=TB),
